@@ -1,8 +1,12 @@
 """C20 — async lru_cache: correspondence of prims/Lru.v with anyio.functools.lru_cache on SchedLoop, plus
 model-independent history monitors (value faithful, single flight, no internal error, bounded retention,
-expired recomputed, LRU order / retention, cache_info accounting) and the known-finding protocol:
-every monitor hit is explained by exactly one of F3 / F8 / F30 / F31 / F32 / F41 from predicates computed on the
-IMPLEMENTATION-observed history (never from the model's ghost flags), or it is a VIOLATION."""
+expired recomputed, LRU order / retention, cache_info accounting, currsize <= maxsize) and the known-finding
+protocol: every monitor hit is explained by exactly one of F3 / F8 / F30 / F31 / F32 / F41 from predicates computed on
+the IMPLEMENTATION-observed history (never from the model's ghost flags), or it is a VIOLATION.  The explanations are
+per hit and quantitative: a second flight in another entries dict needs an OBSERVED cache_clear() that discarded one of
+the two dicts; an inflated count (currsize > counted live entries) is explained one unit per observed event (dead
+counted placeholder, count carried into a new loop, miss counted in a discarded dict, miss counted on another call's
+placeholder) and anything beyond is unexplained."""
 
 from __future__ import annotations
 
@@ -177,6 +181,7 @@ class LruRun:
         self.exp_hits = 0      # cache_info accounting expected from the observed history
         self.exp_misses = 0
         self.acct_reported = False
+        self.cs_reported = False
         # ---- implementation-observed predicates (mirror the model's ghost flags, for the correspondence)
         self.fi = self.fw = self.fu = self.fd = self.fp = self.fb = False
         # ---- explanation data
@@ -185,9 +190,19 @@ class LruRun:
         self.evicted_any_inflight = None   # class of the first such eviction in this run
         self.inflight_evictions = []       # (step, id(dict), class) of every such eviction
         self.uncounted_evictions = []      # (step, id(dict)) of every eviction of an uncounted, unreferenced placeholder
-        self.excess_log = []               # (step, id(current dict), currsize - counted live entries) after each step
+        self.excess_log = []               # (step, id(current dict), currsize - counted live entries, units of that
+                                           #   which observed events account for, class of the first) after each step
         self.stale_pos = {}                # (id(dict), key) -> 'F31' | 'F41': computed on a leftover placeholder, which
                                            #   keeps the position of the aborted / failed call
+        # ---- observed causes of an inflated count (currsize > counted live entries of the current dict); every event
+        #      accounts for ONE unit of inflation, anything beyond their number is unexplained
+        self.discarded = set()             # id(dict) of every entries dict an observed, effective cache_clear() discarded
+        self.phantom = 0                   # units of currsize that count nothing of the current dict: the stale count a
+                                           #   new loop started with + misses counted in a discarded dict (F30)
+        self.dead_events = []              # (step, id(dict)): an execution ended without a result and left its own counted
+                                           #   placeholder in the dict (F41)
+        self.dbl_events = []               # (step, id(dict), class): a miss was counted while the key's entry was the
+                                           #   placeholder of ANOTHER call (second flight after F3 / F8 / ...)
 
     # ------------------------------------------------------------------ monitor hits and their explanation
     def hit(self, kind: str, key, msg: str, info=None):
@@ -201,6 +216,9 @@ class LruRun:
         if kind == "double_flight" and self.effmax == 0:
             return "F32"
         if kind == "double_flight" and info.get("cross_dict"):
+            # the two flights run in different entries dicts AND an observed cache_clear() during a flight discarded
+            # one of the two (info is evaluated when the second flight starts); a dict that changed for any other
+            # reason is no known finding
             return "F30"
         if kind in ("double_flight", "reuse", "keyerror"):
             if key in self.evict_class:
@@ -259,7 +277,9 @@ class LruRun:
                 run.hit("double_flight", k,
                         f"single flight: caller {c} starts the wrapped function for key {k} while caller "
                         f"{others[0]['caller']} is still executing it",
-                        {"cross_dict": any(o["dict"] != ex["dict"] for o in others)})
+                        {"cross_dict": all(o["dict"] != ex["dict"] and
+                                           (o["dict"] in run.discarded or ex["dict"] in run.discarded) for o in others),
+                         "other_dict": any(o["dict"] != ex["dict"] for o in others)})
             others.append(ex)
             run.execs.append(ex)
             fut = run.world.loop.create_future()
@@ -420,19 +440,34 @@ class LruRun:
                     live += 1
         return self.cached.cache_info().currsize - live
 
+    def excess_bound(self):
+        """(number of units of inflation of the current dict's count that observed events account for, class of the
+        first such event)"""
+        d = id(self.cur_dictobj())
+        comps = []
+        if self.phantom > 0:
+            comps.append(("F30", self.phantom))
+        nd = sum(1 for (_s, dd) in self.dead_events if dd == d)
+        if nd:
+            comps.append(("F41", nd))
+        comps += [(c, 1) for (_s, dd, c) in self.dbl_events if dd == d and c is not None]
+        return sum(n for _c, n in comps), (comps[0][0] if comps else None)
+
     def inflation_cause(self):
-        if self.live_excess() > 0:
-            if self.fp:
-                return "F30"
-            if self.fd:
-                return "F41"
-        return None
+        """None: the count is not inflated; a class: it is, by no more than the observed events of known findings account
+        for; '?': it is inflated by more than that"""
+        e = self.live_excess()
+        if e <= 0:
+            return None
+        b, cls = self.excess_bound()
+        return cls if e <= b else "?"
 
     # ------------------------------------------------------------------ one op
     def do(self, code: int, x: int = 0, y: int = 0):
         w = self.world
         self.stepno += 1
         info0 = self.cached.cache_info()
+        self.cs0 = info0.currsize
         nexec0 = len(self.execs)
         cause0 = self.inflation_cause()
         self.waiting0 = {(cl["key"], id(cl.get("dictobj"))) for c, cl in self.curcall.items()
@@ -513,12 +548,17 @@ class LruRun:
                 self.exp_hits = self.exp_misses = 0
                 self.has_dict_pub = False
                 self.ref_order = []
+                self.phantom = 0
             self.cached.cache_clear()
+            if cur0 is not None and self.cur_dictobj() is not cur0:
+                self.discarded.add(id(cur0))       # (cur0 stays alive in self.keep: its id is not reused)
+                self.keep.append(cur0)
         else:
             self.flags.add("new_loop")
             if info0.currsize != 0:
                 self.fp = True
                 self.flags.add("new_loop_stale_count")
+            self.phantom = max(info0.currsize, 0)  # nothing of the old count is in the new loop's dict
             vt = w.loop.time()
             self.end_loop()
             self.start_loop(vt)
@@ -531,6 +571,7 @@ class LruRun:
         self.run_other_handles()
         # ---- classify what happened to the acting caller
         info1 = self.cached.cache_info()
+        self.cs1 = info1.currsize
         rk, rv = 5, 0
         started = False
         finished = False
@@ -575,7 +616,8 @@ class LruRun:
                 elif code == 7:
                     lk = call["lockobj"]
                     queued = lk is not None and lk.statistics().tasks_waiting > 0 and not started
-                    # free lock: suspended in checkpoint_if_cancelled; contended: queued (and cancelled at once)
+                    # since /repo c2fb7fb always suspended in checkpoint_if_cancelled() at the lock entry, whatever the
+                    # state of the lock ('entry'); 'lock' only if the task really stands in the lock's queue
                     self.stage[actor] = "lock" if (queued and self.blocked_in_lock(actor, lk)) else "entry"
                 elif code == 0:
                     self.stage[actor] = "lock"
@@ -595,7 +637,11 @@ class LruRun:
                 if rk == 0 and self.effmax == 0:
                     self.exp_misses += 1
             self.after_actor_step(code, actor, call, dobj, before, after, started, finished, rk, cause0)
-        self.excess_log.append((self.stepno, id(self.cur_dictobj()), self.live_excess()))
+        self.excess_log.append((self.stepno, id(self.cur_dictobj()), self.live_excess()) + self.excess_bound())
+        if self.effmax is not None and info1.currsize > self.effmax and not self.cs_reported:
+            self.cs_reported = True
+            self.hit("currsize", None, f"bounded retention: cache_info() reports currsize={info1.currsize} > "
+                                       f"maxsize={self.effmax}")
         obs = ([rk, rv, info1.hits, info1.misses, info1.currsize] +
                [int(b) for b in (self.fi, self.fw, self.fu, self.fd, self.fp, self.fb)] + self.observe_dict())
         self.ops += [code, x, y]
@@ -656,6 +702,15 @@ class LruRun:
                       and self.stage.get(c2) in ("lock", "wrapped")]
             if not call.get("installed") and not others:
                 self.stale_pos[(id(dobj), k)] = "F41" if id(lk0) in self.counted else "F31"
+        # ---- a miss counted in a dict that an observed cache_clear() had discarded: that unit of currsize counts nothing
+        #      of the current dict
+        if started and not is_cur and id(dobj) in self.discarded and self.cs1 > self.cs0:
+            self.phantom += 1
+        # ---- a miss counted while the key's entry is the placeholder of another call: the key is counted twice
+        #      (also when that placeholder is the very item the miss pops)
+        if started and k in before and before[k][1][1] is not None and call.get("lockobj") is not None \
+                and before[k][1][1] is not call["lockobj"]:
+            self.dbl_events.append((self.stepno, id(dobj), self.evict_class.get(k) or ("F8" if k in self.f8_keys else None)))
         # ---- the placeholder a miss has just counted
         if started:
             if k in after and after[k][1][1] is not None:
@@ -682,7 +737,9 @@ class LruRun:
                 own = lock is call or lock is call.get("lockobj")
                 if own or self.referenced(lock):
                     self.fi = True
-                    cls = cause0 or "F3"
+                    # F3 proper, or the consequence of a count inflated by observed F30 / F41 / F8 events; when the
+                    # count was inflated by MORE than those events account for, the eviction is no known finding
+                    cls = "F3" if cause0 is None else (None if cause0 == "?" else cause0)
                     self.evict_class.setdefault(kk, cls)
                     if self.evicted_any_inflight is None:
                         self.evicted_any_inflight = cls
@@ -720,6 +777,8 @@ class LruRun:
             if k in after and after[k][1][1] is not None and id(after[k][1][1]) in self.counted:
                 self.fd = True
                 self.flags.add("dead_placeholder_counted")
+                if after[k][1][1] is call.get("lockobj"):
+                    self.dead_events.append((self.stepno, id(dobj)))
 
     # ------------------------------------------------------------------ monitors evaluated when a call finishes
     def finish_call(self, c, call, out, cause0):
@@ -856,17 +915,24 @@ class LruRun:
             #    last use: the cache was "full" too early -> F30 (stale / phantom count) or F41 (dead placeholder);
             #  - the key (or the entry it displaced) was computed on a leftover placeholder and kept its stale position
             #    -> F31 / F41;  - the key's own placeholder was popped by a miss while in flight -> its class
+            #    every unit of inflation must be accounted for by ONE observed event (dead counted placeholder, count
+            #    carried into a new loop, miss counted in a discarded dict, key counted twice by a second flight)
             cause = None
-            inflated = max((e for (s, d, e) in self.excess_log if s >= t1 and d == id(dobj)), default=0)
-            if inflated > 0:
-                # (a second flight after a waited eviction / expiry counts its key twice as well: F8)
-                cause = "F30" if self.fp else ("F41" if self.fd else ("F8" if self.fw else None))
-            if cause is None:
-                cause = self.stale_pos.get((id(dobj), k))
-            if cause is None and k in self.evict_class:
-                cause = self.evict_class[k]
+            why = ""
+            infl = [(e, b, cl) for (s, d, e, b, cl) in self.excess_log if s >= t1 and d == id(dobj) and e > 0]
+            worst = max(infl, key=lambda x: x[0] - x[1], default=None)
+            if worst is not None and worst[0] > worst[1]:
+                why = (f"; currsize exceeded the counted live entries by {worst[0]}, of which the observed dead "
+                       f"placeholders / discarded-dict counts / second flights account for {worst[1]}")
+            else:
+                if infl:
+                    cause = next((cl for (_e, _b, cl) in infl if cl is not None), None)
+                if cause is None:
+                    cause = self.stale_pos.get((id(dobj), k))
+                if cause is None and k in self.evict_class:
+                    cause = self.evict_class[k]
             self.hit("retention", k, f"LRU retention: key {k} was recomputed by caller {c} although only "
-                                     f"{len(others)} other keys were used since its last use (maxsize={self.effmax})",
+                                     f"{len(others)} other keys were used since its last use (maxsize={self.effmax}){why}",
                      {"cause": cause})
 
     # ------------------------------------------------------------------ end of case
